@@ -244,6 +244,8 @@ func replay(a []string) {
 		verByName(a[1]).opObj([]byte(unhex(a[2])), len(a) > 3 && a[3] == "1")
 	case "Q":
 		verByName(a[1]).opEq([]byte(unhex(a[2])), unhex(a[3]))
+	case "H":
+		verByName(a[1]).opScoreHist([]byte(unhex(a[2])), []byte(unhex(a[3])))
 	case "F":
 		verByName(a[1]).opScore([]byte(unhex(a[2])))
 	case "R":
